@@ -626,3 +626,28 @@ def focus_body(crate, path_or_body, name=None, pat=None):
 def forigin(crate, body, operand):
     """origin of an operand with closure captures resolved through the enclosing function(s)"""
     return resolve_env(crate, body, body.origin(operand))
+
+
+def family(crate, body, depth=0):
+    """a function body with everything that is textually part of it after later edits: closures nested in it and the
+    coroutine bodies (with their closures) of async helpers that are not functions of the pinned tree and that it instantiates"""
+    out = [body]
+    out += [c for c in crate.bodies if c.kind in ('closure', 'coroutine') and c.path.startswith(body.path + '::') and c is not body]
+    if depth < 3:
+        kn = mirlib.known_fns().get(crate.name, set())
+        for src in list(out):
+            for bb, i, p, a, ops in mirlib.aggregates(src):
+                if a.get('kind') == 'coroutine' and a.get('def'):
+                    fnp = a['def'].rsplit('::{closure#0}', 1)[0]
+                    if fnp not in kn:
+                        co = [x for x in crate.bodies if x.path == a['def']]
+                        for c in co:
+                            if c not in out:
+                                for m in family(crate, c, depth + 1):
+                                    if m not in out:
+                                        out.append(m)
+    return out
+
+
+def fam_calls(fam, name=None, pat=None):
+    return [(b, bb, t) for b in fam for bb, t in b.calls(pat=pat, name=name)]
